@@ -82,7 +82,15 @@ with an_expr (e : expr) : res (expr * option dtype) :=
         | _, _ => inf
         end in
       ROk (EBin op l' r' inf', Some (if is_arithmetic op then DInt else DBool))
-  | EUn op a inf => do (a', ty) <- an_expr a; ROk (EUn op a' inf, ty)
+  | EUn op a inf =>
+      do (a', ty) <- an_expr a;
+      let inf' :=
+        match ty with
+        | Some t => if is_int t then inf
+                    else info_append inf (mkerr_t (info_range inf) (ESem ArithmeticOperatorNonInteger))
+        | None => inf
+        end in
+      ROk (EUn op a' inf', Some DInt)
   | EBrack a inf => do (a', ty) <- an_expr a; ROk (EBrack a' inf, ty)
   | EErr _ => ROk (e, None)
   end.
